@@ -7,7 +7,7 @@ from sim.values import key
 from props.c08 import probes
 
 ID = "C12"
-CASES = {"quick": 1200, "thorough": 20000}
+CASES = {"quick": 4000, "thorough": 20000}
 RULE = ("grammar workload of C08 x bounds n in 0..5 and unbounded on finite languages x value-hash schedule x "
         "PYTHONHASHSEED; is_empty / is_finite / generating / nullable / reachable against reference fixpoints, "
         "get_words(n) as a duplicate-free list equal as a set to the bounded language; enumeration also stepped "
